@@ -61,33 +61,81 @@ def _lazy():
 
 
 def sym_and(a, b):
-    """non-forking conjunction; builds z3.And directly for CrossHair symbolic bools (their `&` costs ~12 ms)"""
-    if a is False or b is False:
-        return False
-    if a is True:
-        return b
-    if b is True:
-        return a
-    if chplugin.SYMBOLIC:
-        if _NT is None:
-            _lazy()
-        with _NT():
-            if isinstance(a, _SB) and isinstance(b, _SB):
-                return _SB(_z3.And(a.var, b.var))
+    """non-forking conjunction.  (`x is True` on a CrossHair symbolic bool FORKS, so concreteness is tested on the real
+    class with tracing off; z3.And is built directly because their `&` costs ~12 ms.)"""
+    if not chplugin.SYMBOLIC:
+        return bool(a) and bool(b)
+    if _NT is None:
+        _lazy()
+    with _NT():
+        ca, cb = type(a) is bool, type(b) is bool
+        if ca and cb:
+            return a and b
+        if ca:
+            return b if a else False
+        if cb:
+            return a if b else False
+        if isinstance(a, _SB) and isinstance(b, _SB):
+            return _SB(_z3.And(a.var, b.var))
     return a & b
 
 
 def sym_or(a, b):
-    if a is True or b is True:
-        return True
-    if a is False:
-        return b
-    if b is False:
-        return a
+    if not chplugin.SYMBOLIC:
+        return bool(a) or bool(b)
+    if _NT is None:
+        _lazy()
+    with _NT():
+        ca, cb = type(a) is bool, type(b) is bool
+        if ca and cb:
+            return a or b
+        if ca:
+            return True if a else b
+        if cb:
+            return True if b else a
+        if isinstance(a, _SB) and isinstance(b, _SB):
+            return _SB(_z3.Or(a.var, b.var))
+    return a | b
+
+
+def sym_ite(cond, a, b):
+    """if-then-else on ints without forking (z3 If for CrossHair symbolic conditions)"""
+    if not chplugin.SYMBOLIC:
+        return a if cond else b
+    if _NT is None:
+        _lazy()
+    from crosshair.libimpl.builtinslib import SymbolicInt
+    with _NT():
+        if type(cond) is bool:
+            return a if cond else b
+        if isinstance(cond, _SB):
+            av = a.var if hasattr(a, "var") else _z3.IntVal(int(a))
+            bv = b.var if hasattr(b, "var") else _z3.IntVal(int(b))
+            return SymbolicInt(_z3.If(cond.var, av, bv))
+    return a if cond else b
+
+
+def hex_value(s):
+    """(all characters are lowercase hex digits, integer value) of a (symbolic) string, fork-free and linear"""
+    acc, ok = 0, True
+    cps = codepoints(s)
+    n = len(cps)
+    for k in range(n):
+        cp = cps[n - 1 - k]
+        isdig = sym_and(cp >= 48, cp <= 57)
+        isaf = sym_and(cp >= 97, cp <= 102)
+        ok = sym_and(ok, sym_or(isdig, isaf))
+        acc = acc + (cp - 48 - sym_ite(cp >= 97, 39, 0)) * 16 ** k
+    return ok, acc
+
+
+def codepoints(s):
+    """code points of a (symbolic) str without the per-character validity forks of ord()"""
     if chplugin.SYMBOLIC:
         if _NT is None:
             _lazy()
+        from crosshair.libimpl.builtinslib import LazyIntSymbolicStr
         with _NT():
-            if isinstance(a, _SB) and isinstance(b, _SB):
-                return _SB(_z3.Or(a.var, b.var))
-    return a | b
+            if isinstance(s, LazyIntSymbolicStr):
+                return list(s._codepoints)
+    return [ord(c) for c in s]
